@@ -117,7 +117,8 @@ def try_replay(u, r):
     case = u.case
     req = {"file": u.contract.file, "qual": u.contract.qual, "args": args, "order": list(u.params.keys()),
            "requires": case.requires, "ensures": case.ensures, "raises": case.raises, "generator": case.generator,
-           "class_invariant": class_inv(u), "modifies": case.modifies}
+           "class_invariant": class_inv(u), "modifies": case.modifies,
+           "vararg": getattr(case, "vararg", None), "kwarg": getattr(case, "kwarg", None)}
     out = run_native(req)
     out["request"] = req
     return out
